@@ -331,6 +331,32 @@ func genC16(c *Ctx) {
 		}
 		ks := "0x" + key.k.Text(16)
 		c.Case("pop-gen/"+key.kind, "sig.expect "+ks+" "+hx(hpop), "ok "+hx(pop))
+		// call history: the caller re-uses ONE buffer for every proof it checks (a result remembered per key or per
+		// slice must not survive the buffer being overwritten); for every other key this is the very first
+		// verification the key ever sees, for the others it comes after fresh-slice verifications
+		inplaceBlock := func() {
+			buf := append([]byte{}, pop...)
+			c.Case("pop-inplace/honest-first", "bls.verify "+ks+" "+hx(hpop)+" "+hx(buf), guard(func() string { return boolAns(crypto.BLSVerifyPOP(key.pk, buf)) }))
+			pk2, _ := crypto.DecodePublicKey(crypto.BLSBLS12381, pkb)
+			inplace := [][]byte{flipBit(pop, 200), crypto.BLSInvalidSignature()}
+			for _, tag := range tags[:4] {
+				sg, _ := key.sk.Sign(pkb, crypto.NewExpandMsgXOFKMAC128(tag))
+				inplace = append(inplace, sg)
+			}
+			for i, cand := range inplace {
+				copy(buf, cand)
+				pk := key.pk
+				if i%2 == 1 && pk2 != nil {
+					pk = pk2
+				}
+				c.Case("pop-inplace/overwritten", "bls.verify "+ks+" "+hx(hpop)+" "+hx(buf), guard(func() string { return boolAns(crypto.BLSVerifyPOP(pk, buf)) }))
+				copy(buf, pop)
+				c.Case("pop-inplace/restored", "bls.verify "+ks+" "+hx(hpop)+" "+hx(buf), guard(func() string { return boolAns(crypto.BLSVerifyPOP(pk, buf)) }))
+			}
+		}
+		if ki%2 == 0 {
+			inplaceBlock()
+		}
 		c.Case("pop-verify-honest", "bls.verify "+ks+" "+hx(hpop)+" "+hx(pop), guard(func() string { return boolAns(crypto.BLSVerifyPOP(key.pk, pop)) }))
 		// wrong key
 		other := keys[(ki+1)%len(keys)]
@@ -342,6 +368,9 @@ func genC16(c *Ctx) {
 			for _, cand := range cands {
 				c.Case("pop-candidate/"+class, "bls.verify "+ks+" "+hx(hpop)+" "+hx(cand), guard(func() string { return boolAns(crypto.BLSVerifyPOP(key.pk, cand)) }))
 			}
+		}
+		if ki%2 == 1 {
+			inplaceBlock()
 		}
 		// signatures of the public key bytes under application tags submitted as PoP; PoP submitted to Verify under tags
 		for _, tag := range tags {
@@ -417,6 +446,13 @@ func genC17(c *Ctx) {
 		emit("p1-plus-torsion", k1, pk1, askBytes("e1 add "+hx(p1)+" "+hx(t)), k2, pk2, p2)
 		emit("p2-plus-torsion", k1, pk1, p1, k2, pk2, askBytes("e1 add "+hx(p2)+" "+hx(t)))
 		emit("both-plus-torsion", k1, pk1, askBytes("e1 add "+hx(p1)+" "+hx(t)), k2, pk2, askBytes("e1 add "+hx(p2)+" "+hx(t)))
+		// both proofs outside G1 with torsion components that cancel in the sum / are opposite / are multiples
+		nt := askBytes("e1 neg " + hx(t))
+		t2 := askBytes("e1 add " + hx(t) + " " + hx(t))
+		emit("opposite-torsion", k1, pk1, askBytes("e1 add "+hx(p1)+" "+hx(t)), k2, pk2, askBytes("e1 add "+hx(p2)+" "+hx(nt)))
+		emit("opposite-torsion-swapped", k2, pk2, askBytes("e1 add "+hx(p2)+" "+hx(nt)), k1, pk1, askBytes("e1 add "+hx(p1)+" "+hx(t)))
+		emit("torsion-and-double", k1, pk1, askBytes("e1 add "+hx(p1)+" "+hx(t)), k2, pk2, askBytes("e1 add "+hx(p2)+" "+hx(t2)))
+		emit("opposite-torsion-same-key", k1, pk1, askBytes("e1 add "+hx(p1)+" "+hx(t)), k1, pk1, askBytes("e1 add "+hx(p1)+" "+hx(nt)))
 		emit("identity-proofs", k1, pk1, inf, k2, pk2, inf)
 		emit("identity-proof-1", k1, pk1, inf, k2, pk2, p2)
 		emit("malformed", k1, pk1, flipBit(p1, c.intn(384)), k2, pk2, p2)
